@@ -35,7 +35,7 @@ K_C10 = kh("c10_builtins", ["c10_prefix_new_total_v4", "c10_prefix_new_total_v6"
 K_C17 = kh("c17_strings", ["c17_bytes_view_2", "c17_bytes_get_3", "c17_lines_get_2"], "quick", 3600) \
     + kh("c17_strings", ["c17_bytes_view_3"], "thorough", 5400)
 K_C20 = kh("c20_memory", ["c20_memory_write_read", "c20_memory_rejects", "c20_memory_dangling_frame", "c20_memory_offset_twice"], "quick", 2400)
-K_C15 = kh("c15_list", ["c15_compute_capacity", "c15_eq_distinct_rust", "c15_eq_alias", "c15_eq_distinct_erased_len", "c15_eq_rust_lengths", "c15_option_bool_elements"], "quick", 2400)
+K_C15 = kh("c15_list", ["c15_compute_capacity", "c15_eq_distinct_rust", "c15_eq_alias", "c15_eq_distinct_erased_len", "c15_eq_rust_lengths", "c15_option_bool_elements", "c15_contains_owned_empty"], "quick", 2400)
 K_C16 = kh("c16_sched", ["c16_get_vs_push1_linearizable", "c16_len_vs_push1_linearizable",
                          "c16_full_get_vs_push1_before_lock", "c16_full_get_vs_push1_after_release"], "quick", 3600) \
     + kh("c16_sched", ["c16_get_vs_push4_realloc_site1"], "thorough", 5400)
@@ -102,7 +102,8 @@ def c02(res):
 
 def c05(res):
     r = kani_part(res, K_C05)
-    T.run_tv(res, {"F10", "F7"}, {"value", "trace"}, reject_is_violation=True, note="identity functions, pass-through to host functions, Option/Verdict built in the script and read by Rust "
+    T.run_tv(res, {"F10", "F10Z", "F7", "F13"}, {"value", "trace"}, reject_is_violation=True,
+             known_roles={k["role"] for k in known_findings() if k["property"] == "C05"}, note="identity functions, pass-through to host functions, Option/Verdict built in the script and read by Rust "
              "and vice versa: bytes returned/passed == independent C-layout encoding of the expected value, for all values")
     res.level = "model_checking"
     finish_k(res, r,
